@@ -44,6 +44,9 @@ pub struct CrashScript {
     /// bucket exhaustion runs: the first sync operation that fails is reported as a Fault record
     #[serde(default)]
     pub exhaust: bool,
+    /// record the I/O of every sync operation, not only of the ones in crash_steps
+    #[serde(default)]
+    pub record_all: bool,
 }
 
 #[derive(Deserialize, Clone, Debug)]
@@ -119,8 +122,31 @@ fn check_image<T: HashAlgorithm>(dir: &Path, cfg: &StoreCfg, conc: &Concretisati
 }
 
 fn ev_json(e: &Ev) -> J {
-    json!({"seq": e.seq, "k": e.kind, "ph": e.phase, "f": e.file, "off": e.offset, "len": e.len, "ok": e.ok,
-           "th": e.thread, "inj": e.injected})
+    let mut j = json!({"seq": e.seq, "k": e.kind, "ph": e.phase, "f": e.file, "off": e.offset, "len": e.len, "ok": e.ok,
+           "th": e.thread, "inj": e.injected});
+    // fields for SeglogTrace: segment number, record id of a header append, live range of a meta write
+    if let Some(rest) = e.file.strip_prefix("rollback.") {
+        if let Some(n) = rest.strip_suffix(".log").and_then(|x| x.parse::<u64>().ok()) {
+            j["seg"] = json!(n);
+        }
+        if e.kind == "append" && e.len == 12 {
+            if let Some(d) = &e.data {
+                if d.len() >= 12 {
+                    j["plen"] = json!(u32::from_le_bytes(d[0..4].try_into().unwrap()));
+                    j["rid"] = json!(u64::from_le_bytes(d[4..12].try_into().unwrap()));
+                }
+            }
+        }
+    }
+    if e.file == "meta" && e.kind == "write" {
+        if let Some(d) = &e.data {
+            if d.len() >= 64 {
+                j["rs"] = json!(u64::from_le_bytes(d[48..56].try_into().unwrap()));
+                j["re"] = json!(u64::from_le_bytes(d[56..64].try_into().unwrap()));
+            }
+        }
+    }
+    j
 }
 
 struct ImgCtx<'a> {
@@ -131,7 +157,7 @@ struct ImgCtx<'a> {
     run: u64,
     idx: usize,
     n_images: u64,
-    rec_streams: Vec<Vec<Ev>>,
+    rec_streams: Vec<(usize, String, Vec<Ev>)>,
     seen_streams: std::collections::BTreeSet<String>,
     decode: bool,
 }
@@ -164,8 +190,11 @@ fn emit_image<T: HashAlgorithm>(
     c.n_images += 1;
     if depth == 1 && !events.is_empty() {
         let sig: String = events.iter().map(|e| format!("{}{}{};", &e.kind[..2], &e.phase[..1], e.file.chars().next().unwrap_or('?'))).collect();
-        if c.seen_streams.insert(sig) && c.rec_streams.len() < 40 {
-            c.rec_streams.push(events.clone());
+        // recovery streams of the images whose in-flight operations are not applied are kept per boundary
+        // (SeglogTrace replays prefix + crash + recovery); of the others one per shape (SyncTrace)
+        let sig = if label == "none" { format!("{k}:{sig}") } else { sig };
+        if c.seen_streams.insert(sig) && c.rec_streams.len() < 400 {
+            c.rec_streams.push((k, label.to_string(), events.clone()));
         }
     }
     events
@@ -259,7 +288,10 @@ pub fn run<T: HashAlgorithm>(cs: &CrashScript, scratch: &Path, out: &mut dyn Wri
     for (idx, step) in sc.steps.iter().enumerate() {
         watchdog::progress(&format!("crash run {} step {} {}", sc.run, idx, step));
         let a = jstr(step, "a");
-        let target = cs.crash_steps.contains(&idx) && is_sync_op(&a);
+        // every sync operation is recorded (SeglogTrace / SyncTrace need gapless histories); crash images are
+        // enumerated for the operations named in crash_steps only
+        let enumerate = cs.crash_steps.contains(&idx) && is_sync_op(&a);
+        let target = is_sync_op(&a) && (enumerate || cs.record_all);
         let fault_here = cs.fault.as_ref().map_or(false, |f| f.step == idx) && is_sync_op(&a);
         let mut pre = None;
         if target || fault_here {
@@ -311,13 +343,16 @@ pub fn run<T: HashAlgorithm>(cs: &CrashScript, scratch: &Path, out: &mut dyn Wri
             let mut images = Vec::new();
             let mut c = ImgCtx { img_dir: img_dir.clone(), cfg: &sc.cfg, conc: &sc.conc, step, run: sc.run, idx, n_images: 0,
                                  rec_streams: Vec::new(), seen_streams: Default::default(), decode: sc.decode };
-            enumerate_images::<T>(&mut c, pre.as_ref().unwrap(), &events, cs, &mut rng, &mut images);
+            if enumerate {
+                enumerate_images::<T>(&mut c, pre.as_ref().unwrap(), &events, cs, &mut rng, &mut images);
+            }
             for im in images {
                 writeln!(out, "{}", im)?;
             }
             // the distinct recovery streams seen while opening the images (SyncTrace: recover-* rules)
-            for stream in &c.rec_streams {
+            for (ik, ilabel, stream) in &c.rec_streams {
                 writeln!(evout, "{}", json!({"ev":"op","run":sc.run,"i":idx,"op":{"a":"Reopen"},"res":"Ok","n":stream.len(),"failable":0,
+                                             "img": {"k": ik, "label": ilabel},
                                              "pre": {"ln":{"bump":0,"free":[]},"bbn":{"bump":0,"free":[]}}}))?;
                 for e in stream {
                     let mut j = ev_json(e);
@@ -415,6 +450,28 @@ fn pre_summary(sh: &Shadow) -> J {
         let len_pages = file.map(|f| f.len / 4096).unwrap_or(0);
         out[name] = json!({"bump": bump, "free": free, "flPages": fl_pages, "lenPages": len_pages});
     }
+    // the rollback segment files, by the documented format alone: [record id, size in 4 KiB units, whole]
+    let mut segs = serde_json::Map::new();
+    for (name, img) in &sh.vol {
+        let Some(n) = name.strip_prefix("rollback.").and_then(|r| r.strip_suffix(".log")).and_then(|x| x.parse::<u64>().ok()) else { continue };
+        let mut recs: Vec<J> = Vec::new();
+        let mut pos = 0u64;
+        let zero = vec![0u8; 4096];
+        while pos < img.len {
+            let page = img.pages.get(&(pos / 4096)).unwrap_or(&zero);
+            let plen = u32::from_le_bytes(page[0..4].try_into().unwrap()) as u64;
+            let rid = u64::from_le_bytes(page[4..12].try_into().unwrap());
+            let end = (pos + 12 + plen + 4095) / 4096 * 4096;
+            let whole = end <= img.len;
+            recs.push(json!([rid, if whole { (end - pos) / 4096 } else { 0 }, whole]));
+            if !whole {
+                break;
+            }
+            pos = end;
+        }
+        segs.insert(n.to_string(), J::Array(recs));
+    }
+    out["segs"] = J::Object(segs);
     out
 }
 
